@@ -97,6 +97,8 @@ def explore_symbolic(make_world, make_run, shape, *, seed=0, max_paths=10**9, de
     from symx.engine import Explorer
 
     ex = Explorer(timeout_ms=timeout_ms, seed=seed)
+    if os.environ.get("VERIF_XCHECK"):
+        ex.xsample, ex.xsample_max, ex.xsample_every = [], 2, 3
     W = make_world(ex, shape, False)
     run = make_run(W, shape)
     ftrace = FunctionTrace()
@@ -156,6 +158,12 @@ def explore_symbolic(make_world, make_run, shape, *, seed=0, max_paths=10**9, de
                                               native_run=st2["samples"][:1],
                                               error="counterexample did not reproduce natively"))
     res["n_candidates"] = len(cands)
+    if stats.get("xsamples"):
+        from symx.engine import cross_check
+
+        res["xcheck"] = cross_check(stats.pop("xsamples"))
+    else:
+        stats.pop("xsamples", None)
     # known findings: replay one witness each natively
     for k, ks in stats["known_seen"].items():
         w = ks.get("witness")
@@ -316,10 +324,17 @@ def finish(pid, tier, seed, t0, results, *, level="model_checking", bounds=None,
     inconclusive = 0
     exhaustive_all = True
     known_seen = {}
+    xc = dict(checked=0, agree=0, disagree=[], errors=[], solvers=[])
     for r in results:
         if "crashed" in r:
             crashed.append(r)
             continue
+        if "xcheck" in r:
+            for k in ("checked", "agree"):
+                xc[k] += r["xcheck"][k]
+            xc["disagree"] += r["xcheck"]["disagree"]
+            xc["errors"] += r["xcheck"]["errors"][:2]
+            xc["solvers"] = r["xcheck"]["solvers"]
         st = r["stats"]
         for k in ("paths", "literals", "queries", "unknown", "nontrivial"):
             tot[k] += st.get(k, 0)
@@ -389,7 +404,13 @@ def finish(pid, tier, seed, t0, results, *, level="model_checking", bounds=None,
         known_findings_witness_still_fails=sorted(still_failing),
         harness_errors=len(herrors) + len(crashed),
         engine=engine,
+        second_solver_cross_check=dict(solvers=xc["solvers"], queries_rechecked=xc["checked"], agree=xc["agree"],
+                                       disagree=xc["disagree"][:5], errors=len(xc["errors"]), error_samples=xc["errors"][:3]),
     )
+    if xc["disagree"]:
+        print("INCONCLUSIVE: second solver disagrees with z3 on", len(xc["disagree"]), "exported verdict queries")
+        if code == EXIT_OK:
+            code = EXIT_HARNESS
     if extra:
         cov.update(extra)
     ev = dict(property_id=pid, tier=tier, seed=seed, level=level, coverage=cov,
